@@ -114,6 +114,14 @@ func runC13(sc C13Script) *c13Result {
 			emu.Lock()
 			ended = true
 			emu.Unlock()
+		case "localReasonWriteFault":
+			// the write of the close frame itself fails: still a deliberate local close
+			_, wn, _ := a.counters()
+			a.SetFaults(Faults{FailWriteAt: wn + 1})
+			sut.CloseDataConnection(4500, "User close")
+			emu.Lock()
+			ended = true
+			emu.Unlock()
 		}
 	}
 	markIfReported := func() {
@@ -262,7 +270,7 @@ func judgeC13(t *testing.T, sc C13Script) (key, msg string, res *c13Result) {
 		}
 		return "", "", res
 	}
-	deliberate := sc.Cause == "local" || sc.Cause == "localReason"
+	deliberate := sc.Cause == "local" || sc.Cause == "localReason" || sc.Cause == "localReasonWriteFault"
 	what := fmt.Sprintf("cause %s k=%d (session: %d reads, %d writes)", sc.Cause, sc.K, res.Reads, res.Writes)
 	if deliberate {
 		if len(res.Errors) > 0 {
@@ -357,7 +365,7 @@ func TestC13(t *testing.T) {
 			sc.Cause, sc.K = "write", k
 			judge(sc)
 		}
-		for _, c := range []string{"peerClose", "eof", "local", "localReason"} {
+		for _, c := range []string{"peerClose", "eof", "local", "localReason", "localReasonWriteFault"} {
 			sc := base
 			sc.Cause = c
 			judge(sc)
